@@ -59,6 +59,9 @@ impl World for TemplateWorld {
         let mut fg = rng::stream(run_seed, "faults");
         case.clone_config = fg.chance(0.1);
         case.stale_state = fg.chance(0.15);
+        if fg.chance(0.1) {
+            case.nest = 1 + fg.below(2) as u8;
+        }
         match self.faults {
             FaultMix::None => {}
             FaultMix::Evaluator => {
@@ -248,6 +251,7 @@ impl World for EvalIds {
             log: false,
             clone_config: false,
             stale_state: false,
+            nest: 0,
         });
         let data = Arc::new(std::sync::Mutex::new(crate::tw::observer::ObsData::default()));
         let mut state: mahf::State<RealP> = mahf::State::new();
